@@ -7,7 +7,7 @@
    the cost additions and sqrt (the model adds exactly; metrics are about squared distances). *)
 From Coq Require Import List ZArith QArith Bool Arith.
 From Koala Require Import Model.AStar Model.Metric Model.FluxSolver
-     Proofs.AStarFacts Proofs.ChainFlipFacts Proofs.MetricFacts.
+     Proofs.AStarFacts Proofs.AStarOptimal Proofs.AStarBudget Proofs.ChainFlipFacts Proofs.MetricFacts.
 Import ListNotations.
 
 (* ---- clause "a valid chain": forward-pass invariant, for every budget and both stopping modes:
@@ -58,6 +58,24 @@ Theorem C11_start_eq_goal :
   forall adj h s early n, as_path adj h s s early (S n) = AS_Path [s] [] None.
 Proof. exact as_path_start_eq_goal. Qed.
 Print Assumptions C11_start_eq_goal.
+
+(* ---- clause "without early stopping the path is a shortest one for the chosen centre-to-centre metric" (astar_optimal).
+   Exact arithmetic.  Hypotheses on the cost function (all hold for a metric between node centres): >= 0 on graph edges and
+   > 0 between distinct adjacent nodes; h goal goal = 0; h n goal >= 0; consistency towards the goal
+   h a goal <= h a b + h b goal on every graph edge a -> b (triangle inequality).  Then for EVERY budget, if the full search
+   returns a path, its cost is <= the cost of ANY walk goal ... start in the graph (as_chain adj: consecutive nodes adjacent). *)
+Theorem C11_astar_optimal :
+  forall (adj : nat -> list (nat * nat)) (h : nat -> nat -> Z) (start goal : nat),
+    (forall a b e, In (b, e) (adj a) -> (0 <= h a b)%Z /\ (a <> b -> (0 < h a b)%Z)) ->
+    h goal goal = 0%Z ->
+    (forall a b e, In (b, e) (adj a) -> (h a goal <= h a b + h b goal)%Z) ->
+    (forall n, (0 <= h n goal)%Z) ->
+    forall maxits ns es mg,
+      as_path adj h start goal false maxits = AS_Path ns es mg ->
+      forall ws es', as_chain adj ws es' -> hd_error ws = Some goal -> last ws goal = start ->
+        (as_chain_cost h ns <= as_chain_cost h ws)%Z.
+Proof. exact as_astar_optimal. Qed.
+Print Assumptions C11_astar_optimal.
 
 (* ---- the proved chain checker that the harness runs on the implementation's outputs *)
 Theorem C11_valid_path_sound :
@@ -133,6 +151,25 @@ Theorem C11_periodic_min_image : forall x y (k : Z), 0 <= x -> x < 1 -> 0 <= y -
 Proof. exact mt_wrap_sq_min_image. Qed.
 Print Assumptions C11_periodic_min_image.
 
+(* ---- clause "always found when the iteration budget is at least the number of edges (the budget the flux solver uses)"
+   (astar_budget), for the mode the flux solver uses: early_stopping=True.  Graph hypotheses: edge ids below E, an edge id has
+   one unordered pair of ends, the goal is reachable from start (a walk exists); cost hypotheses as for C11_astar_optimal.
+   Then for every budget maxits >= E the search returns a path (no PathFindingError), and it is a valid simple chain.
+   (Accounting: every queue entry but the first is paid for by a distinct edge not incident to the goal.) *)
+Theorem C11_astar_budget :
+  forall (adj : nat -> list (nat * nat)) (h : nat -> nat -> Z) (start goal E : nat),
+    (forall a b e, In (b, e) (adj a) -> (0 <= h a b)%Z /\ (a <> b -> (0 < h a b)%Z)) ->
+    (forall a b e, In (b, e) (adj a) -> (h a goal <= h a b + h b goal)%Z) ->
+    (forall n, (0 <= h n goal)%Z) ->
+    goal <> start ->
+    (forall a b e, In (b, e) (adj a) -> (e < E)%nat) ->
+    (forall a b e a' b', In (b, e) (adj a) -> In (b', e) (adj a') -> (a = a' /\ b = b') \/ (a = b' /\ b = a')) ->
+    (exists ws es, as_chain adj ws es /\ hd_error ws = Some goal /\ last ws goal = start) ->
+    forall maxits, (E <= maxits)%nat ->
+      exists ns es mg, as_path adj h start goal true maxits = AS_Path ns es mg /\ as_valid_chain adj start goal ns es.
+Proof. exact as_path_budget. Qed.
+Print Assumptions C11_astar_budget.
+
 (* ---- clause "always found when the iteration budget is at least the number of edges".
    FALSE of the faithful model for a full search (early_stopping=False) on a tree: the path graph 0 - 1 - 2 has
    2 edges, the goal is popped in the 3rd iteration.  With early stopping (the mode the flux solver uses) the
@@ -159,6 +196,28 @@ Example C11_path_nonvacuous :
   as_path adj h 0 3 false 5 = AS_Path [3; 1; 0]%nat [3; 0]%nat (Some 2%Z) /\
   as_path adj h 0 3 true 5 = AS_Path [3; 1; 0]%nat [3; 0]%nat (Some 2%Z).
 Proof. exact as_path_example. Qed.
+
+Example C11_budget_nonvacuous :
+  let adj := (fun n => match n with 0 => [(1, 0)] | 1 => [(0, 0); (2, 1)] | 2 => [(1, 1)] | _ => [] end)%nat in
+  let h := (fun a b : nat => Z.abs (Z.of_nat a - Z.of_nat b)) in
+  (forall a b e, In (b, e) (adj a) -> (0 <= h a b)%Z /\ (a <> b -> (0 < h a b)%Z)) /\
+  (forall a b e, In (b, e) (adj a) -> (h a 2%nat <= h a b + h b 2%nat)%Z) /\
+  (forall n, (0 <= h n 2%nat)%Z) /\
+  (forall a b e, In (b, e) (adj a) -> (e < 2)%nat) /\
+  (forall a b e a' b', In (b, e) (adj a) -> In (b', e) (adj a') -> (a = a' /\ b = b') \/ (a = b' /\ b = a')) /\
+  (exists ws es, as_chain adj ws es /\ hd_error ws = Some 2%nat /\ last ws 2%nat = 0%nat).
+Proof. exact as_budget_example. Qed.
+
+Example C11_optimal_nonvacuous :
+  let adj := (fun n => match n with
+                       | 0 => [(1, 0); (2, 2)] | 1 => [(0, 0); (2, 1); (3, 3)]
+                       | 2 => [(1, 1); (0, 2); (3, 4)] | 3 => [(1, 3); (2, 4)] | _ => [] end)%nat in
+  let h := (fun a b => if (a =? b)%nat then 0 else 3 + Z.of_nat (a + b))%Z in
+  (forall a b e, In (b, e) (adj a) -> (0 <= h a b)%Z /\ (a <> b -> (0 < h a b)%Z)) /\
+  h 3%nat 3%nat = 0%Z /\
+  (forall a b e, In (b, e) (adj a) -> (h a 3%nat <= h a b + h b 3%nat)%Z) /\
+  (forall n, (0 <= h n 3%nat)%Z).
+Proof. exact as_optimal_example. Qed.
 
 (* two triangles sharing edge 2: plaquette 0 = edges 0,1,2; plaquette 1 = edges 2,3,4 *)
 Example C11_flip_nonvacuous :
